@@ -5,12 +5,19 @@ PROPS = {
         "technique": "Verus contracts on hazmat helpers and subtree functions against the tree-level spec",
         "level_text": "unbounded deductive proof (Verus/z3) over the real hazmat functions",
         "level_note": "trusted: Verus+z3, extraction rules, std intrinsics (next_power_of_two, trailing_zeros), SIMD kernels assumed (C05)",
-        "units": {"quick": [v("tree"), v("tree_lemmas")], "thorough": []},
+        "units": {"quick": [v("hasher"), v("tree"), v("xof"), v("tree_lemmas"), v("stack_lemmas"), k("left_subtree_len"), k("max_subtree_len")], "thorough": [v("hasher", "C")]},
         "cone": [r"crate::hazmat::", r"crate::Hasher::", r"crate::compress_subtree", r"crate::parent_node_output",
                  r"crate::Output::", r"\(contract\)"],
-        "explanation": "hazmat::left_subtree_len / max_subtree_len are proved against their closed forms on the whole "
-                       "stated domain; subtree hashing functions are proved against the tree-level specification.",
-        "uncovered": [],
+        "explanation": "left_subtree_len / max_subtree_len: closed forms on the whole stated domain (Verus + complete Kani "
+                       "harnesses). set_input_offset(o) establishes repr([]) at chunk counter o/1024; update keeps repr for "
+                       "any update sequence within max_subtree_len; finalize_non_root == sp_subtree_cv(m, o/1024): a "
+                       "subtree's CV depends only on its bytes, offset and mode key, for offsets in [0, 2^64). "
+                       "merge_subtrees_non_root/root/root_xof == parent CV / root hash / root stream. Composition "
+                       "(lemma_decomp, lemma_decomp_root over an inductive decomposition datatype): every tree of splits at "
+                       "left_subtree_len, leaves hashed by any hasher, reproduces sp_root_out(input).",
+        "uncovered": ["fixed power-of-two groups are covered only as recursive decompositions that split at left_subtree_len; "
+                      "the 'pairwise layer' driver used in the crate's own test (lemma_pairwise_tree exists) is not tied to "
+                      "an arbitrary group size by a lemma"],
         "assumptions": [SIMD_ASSUMPTION, EXTRACTION],
     },
 }
